@@ -253,7 +253,9 @@ func serverHandler(f base.ServerFactory, conn net.Conn, info *pt.ServerInfo) {
 	}
 
 	// Connect to the orport.
-	orConn, err := pt.DialOr(info, conn.RemoteAddr().String(), name)
+	// Note: pt.DialOr() type asserts the connection before checking the error,
+	// which panics when the connection attempt fails.
+	orConn, err := pt.DialOrWithDialer(&net.Dialer{}, info, conn.RemoteAddr().String(), name)
 	if err != nil {
 		log.Errorf("%s(%s) - failed to connect to ORPort: %s", name, addrStr, log.ElideError(err))
 		return
